@@ -49,8 +49,20 @@ def split(data):
     return res
 
 
+_identity_cache = {}
+
+
 def server_identity(kind="rsa"):
-    """(certificate, chain, key) for the server"""
+    """(certificate, chain, key) for the server; the repository's PEM identities are loaded once
+    (parsing the RSA key costs ~100 ms)"""
+    if kind in ("rsa", "rsa-chain"):
+        if kind not in _identity_cache:
+            _identity_cache[kind] = _server_identity(kind)
+        return _identity_cache[kind]
+    return _server_identity(kind)
+
+
+def _server_identity(kind="rsa"):
     from aioquic.quic.configuration import QuicConfiguration
     import sys
     sys.path.insert(0, TESTS)
